@@ -147,6 +147,19 @@ impl AddrBook {
     }
 }
 
+/// A held sender lock of the address book's watch (see `AddrBook::hold_lock`).
+pub struct AddrBookLock<'a>(
+    #[allow(dead_code)] sync::MutexGuard<'a, sync::watch::Sender<super::ValidatorAddrs>>,
+);
+
+impl AddrBook {
+    /// Holds the lock that serialises `update` and `announce`, as a concurrent writer would;
+    /// calls started meanwhile queue behind it in the order of their first poll.
+    pub async fn hold_lock(&self) -> AddrBookLock<'_> {
+        AddrBookLock(self.0.verif_lock().await)
+    }
+}
+
 /// C19: the block fetcher loop of a constructed `Network` (see `crate::verif::Glue`) and both
 /// ends of its own fetch queue.
 impl crate::verif::Glue {
